@@ -27,6 +27,8 @@ func (t c02Tok) String() string {
 		return fmt.Sprintf("PUB2(%d)", t.id)
 	case 'R':
 		return fmt.Sprintf("PUBREL(%d)", t.id)
+	case 'X':
+		return "RECONNECT"
 	}
 	return "FILLER"
 }
@@ -44,9 +46,24 @@ type c02Env interface {
 	acks() []string      // acknowledgements received since the last call
 	handed() []delivered // messages handed on since the last call
 	alive() bool
+	reconnect() bool // the sender drops its connection and resumes its persistent session
 }
 
-type c02BrokerEnv struct{ pub, sub *bclient }
+type c02BrokerEnv struct {
+	pub, sub *bclient
+	w        *world
+}
+
+func (e *c02BrokerEnv) reconnect() bool {
+	e.pub.Close()
+	settle()
+	p, ack := e.w.connectB("pub", connectOpts{ClientID: "pub", Clean: false, KeepAlive: 6000, Policy: rawclient.AckNone})
+	if ack == nil || ack.ReturnCode != 0 || !ack.SessionPresent {
+		return false
+	}
+	e.pub = p
+	return true
+}
 
 func (e *c02BrokerEnv) send(p *rc.Packet) { e.pub.SendPacket(p) }
 func (e *c02BrokerEnv) quiesce() bool     { settle(); return true }
@@ -70,7 +87,7 @@ func c02Script(t *testing.T, script []c02Tok, strictOrder bool, seed uint64, idx
 		w := newWorld(worldCfg{BufferSize: 16384})
 		cl.add(w.shutdown)
 		sub, ack := w.connectB("sub", connectOpts{Clean: true, KeepAlive: 6000})
-		pub, ack2 := w.connectB("pub", connectOpts{Clean: true, KeepAlive: 6000, Policy: rawclient.AckNone})
+		pub, ack2 := w.connectB("pub", connectOpts{ClientID: "pub", Clean: false, KeepAlive: 6000, Policy: rawclient.AckNone})
 		if ack == nil || ack2 == nil {
 			out.Violation("c02:connect", "no CONNACK", params)
 			return
@@ -79,7 +96,7 @@ func c02Script(t *testing.T, script []c02Tok, strictOrder bool, seed uint64, idx
 			out.Violation("c02:suback", "no SUBACK", params)
 			return
 		}
-		c02Run(&c02BrokerEnv{pub, sub}, script, strictOrder, seed, idx, params, 16384)
+		c02Run(&c02BrokerEnv{pub: pub, sub: sub, w: w}, script, strictOrder, seed, idx, params, 16384)
 	})
 }
 
@@ -127,6 +144,13 @@ func c02Run(env c02Env, script []c02Tok, strictOrder bool, seed uint64, idx int,
 						wantHand = []uint64{e.uid}
 					}
 				}
+			case 'X':
+				// the sender loses its connection and resumes its session (CleanSession=0): open exchanges survive
+				if !env.reconnect() {
+					fail("c02:reconnect", fmt.Sprintf("step %d: the persistent session could not be resumed", step))
+					return
+				}
+				out.Count("c02.reconnects", 1)
 			case 'F':
 				sent := 0
 				for sent < 2*ring+500 {
@@ -248,6 +272,16 @@ func c02Run(env c02Env, script []c02Tok, strictOrder bool, seed uint64, idx int,
 }
 
 // genScript builds a random script over nid packet identifiers.
+func genScriptX(r *spec.Rand, nid, length int, strict bool) []c02Tok {
+	s := genScript(r, nid, length, strict)
+	// insert one or two reconnects of the sender
+	for k := 0; k < 1+r.Intn(2); k++ {
+		i := r.Intn(len(s) + 1)
+		s = append(s[:i], append([]c02Tok{{'X', 0}}, s[i:]...)...)
+	}
+	return s
+}
+
 func genScript(r *spec.Rand, nid, length int, strict bool) []c02Tok {
 	var s []c02Tok
 	var openOrder []uint16
@@ -348,6 +382,9 @@ func TestC02Broker(t *testing.T) {
 		r := spec.NewRand(seed)
 		strict := g%4 != 0
 		sc := genScript(r, 3+r.Intn(2), 6+r.Intn(10), strict)
+		if g%3 == 0 {
+			sc = genScriptX(r, 3+r.Intn(2), 6+r.Intn(10), strict)
+		}
 		out.Begin(id, seed, nil)
 		c02Script(t, sc, strict, seed, g)
 		out.End()
@@ -378,6 +415,8 @@ func (e *c02ClientEnv) acks() []string {
 	}
 	return a
 }
+func (e *c02ClientEnv) reconnect() bool { return true } // not generated for the client role
+
 func (e *c02ClientEnv) handed() []delivered {
 	var ds []delivered
 	for _, l := range e.log.take() {
